@@ -217,23 +217,38 @@ Section Measures.
       obind (normalize w1 (nsum N w) false (one N)) (fun wts =>
       obind (impose_mean m x (Some wts)) (fun y => Some (y, wts)))).
 
-  (* ---- tools.connected : dict (insertion ordered) from a key to a set of members; pairs in iteration order *)
+  (* ---- tools.connected (as repaired): dict (insertion ordered) from a key to a set of members; pairs in iteration
+     order.  Self pairs are skipped; the groups holding i and j are looked up (first match in dict order); a new group
+     is opened, the missing end is added to the other end's group, or two different groups are merged:
+     collapse[ki].update(collapse.pop(kj)); collapse[ki].add(kj).  Sets are lists without repetition (the order of a
+     Python set is irrelevant to impose_collapse in exact arithmetic). *)
   Definition cdict := list (nat * list nat).
   Definition mem (i : nat) (s : list nat) : bool := existsb (Nat.eqb i) s.
   Definition sadd (i : nat) (s : list nat) : list nat := if mem i s then s else s ++ [i].
-  Fixpoint conn_insert (i j : nat) (d : cdict) : option cdict :=
+  Fixpoint find_key (i : nat) (d : cdict) : option nat :=
     match d with
     | [] => None
-    | (k, v) :: r =>
-        if (Nat.eqb i k || mem i v)%bool then Some ((k, sadd j v) :: r)
-        else if (Nat.eqb j k || mem j v)%bool then Some ((k, sadd i v) :: r)
-        else option_map (cons (k, v)) (conn_insert i j r)
+    | (k, v) :: r => if (Nat.eqb i k || mem i v)%bool then Some k else find_key i r
     end.
-  Definition connected (pairs : list (nat * nat)) : cdict :=
-    fold_left (fun d p => match conn_insert (fst p) (snd p) d with
-                          | Some d' => d'
-                          | None => d ++ [(fst p, [snd p])]
-                          end) pairs [].
+  Definition members (k : nat) (d : cdict) : list nat :=
+    match find (fun e => Nat.eqb (fst e) k) d with Some e => snd e | None => [] end.
+  Definition add_member (k j : nat) (d : cdict) : cdict :=
+    map (fun e => if Nat.eqb (fst e) k then (fst e, sadd j (snd e)) else e) d.
+  Definition merge_groups (ki kj : nat) (d : cdict) : cdict :=
+    let vj := members kj d in
+    map (fun e => if Nat.eqb (fst e) ki
+                  then (fst e, sadd kj (fold_left (fun s a => sadd a s) vj (snd e))) else e)
+        (filter (fun e => negb (Nat.eqb (fst e) kj)) d).
+  Definition conn_step (d : cdict) (p : nat * nat) : cdict :=
+    let i := fst p in let j := snd p in
+    if Nat.eqb i j then d else
+    match find_key i d, find_key j d with
+    | None, None => d ++ [(i, [j])]
+    | Some ki, None => add_member ki j d
+    | None, Some kj => add_member kj i d
+    | Some ki, Some kj => if Nat.eqb ki kj then d else merge_groups ki kj d
+    end.
+  Definition connected (pairs : list (nat * nat)) : cdict := fold_left conn_step pairs [].
 
   (* one dict entry of impose_collapse:  v = w[i]; for k in ks: v += w[k]; w[k] = 0; x[k] = x[i];  w[i] = v *)
   Definition collapse_entry (xw : list E * list E) (e : nat * list nat) : list E * list E :=
